@@ -402,6 +402,17 @@ func Adversarial() []AdvSet {
 		add(advFD("adv_same_package", "two files generated into one Go package", ExpFiles, []string{"adv/samepkg_a.proto", "adv/samepkg_b.proto"}, b, a))
 	}
 	{
+		// a file whose message has a field the plugin renames (`type` -> Type_) generated together with an unrelated file,
+		// in another Go package, that has a field literally named `type_` (and other already-suffixed names): whatever the
+		// plugin remembers about renames must not leak from one file into another
+		first := File{Path: "adv/rename_first.proto", Package: "adv.renameleak.first", GoPackage: GenCheckBase + "adv_rename_leak/first", Msgs: []M{
+			{Name: "First", Fields: []F{{Name: "type", Num: 1, Kind: String}, {Name: "has", Num: 2, Kind: Bool}, {Name: "range", Num: 3, Kind: Int32, Rep: true}}}}}.Build()
+		second := File{Path: "adv/rename_second.proto", Package: "adv.renameleak.second", GoPackage: GenCheckBase + "adv_rename_leak/second", Deps: []string{"adv/rename_first.proto"}, Msgs: []M{
+			{Name: "Second", Fields: []F{{Name: "type_", Num: 1, Kind: String}, {Name: "has_", Num: 2, Kind: Bool}, {Name: "f", Num: 3, Kind: Message, TypeName: ".adv.renameleak.first.First"},
+				{Name: "range_", Num: 4, Kind: Message, TypeName: ".adv.renameleak.first.First", Map: true, KeyKind: String}}}}}.Build()
+		add(advFD("adv_rename_leak", "a renamed reserved field name in one file, the already-suffixed name in a co-generated file of another package", ExpFiles, []string{"adv/rename_first.proto", "adv/rename_second.proto"}, first, second))
+	}
+	{
 		// two unrelated files in different Go packages that declare a message with the SAME Go name at different positions
 		// of their flattened message lists (anything the generator remembers per message name across files shows here:
 		// generated together the second file must be byte-identical to generated alone)
